@@ -49,6 +49,23 @@ namespace vqp { inline std::vector<std::string>& unknown_log() { static std::vec
 #include <amgcl/preconditioner/cpr.hpp>
 #include <amgcl/preconditioner/cpr_drs.hpp>
 #include <amgcl/preconditioner/schur_pressure_correction.hpp>
+#ifdef VQ_MPI_PARAMS
+// drv_params_mpi.cpp is a symlink to this file, compiled with mpicxx -DVQ_MPI_PARAMS: the params
+// structs of the distributed components (only constructed/exported, MPI is never initialised)
+#include <amgcl/mpi/make_solver.hpp>
+#include <amgcl/mpi/amg.hpp>
+#include <amgcl/mpi/cpr.hpp>
+#include <amgcl/mpi/schur_pressure_correction.hpp>
+#include <amgcl/mpi/subdomain_deflation.hpp>
+#include <amgcl/mpi/coarsening/aggregation.hpp>
+#include <amgcl/mpi/coarsening/smoothed_aggregation.hpp>
+#include <amgcl/mpi/coarsening/pmis.hpp>
+#include <amgcl/mpi/relaxation/spai0.hpp>
+#include <amgcl/mpi/relaxation/as_preconditioner.hpp>
+#include <amgcl/mpi/direct_solver/skyline_lu.hpp>
+#include <amgcl/mpi/partition/merge.hpp>
+#include <amgcl/mpi/solver/cg.hpp>
+#endif
 
 using boost::property_tree::ptree;
 using vq::Tok;
@@ -124,7 +141,37 @@ typedef amgcl::solver::bicgstab<B> BiCG;
 typedef amgcl::make_solver<AMG, BiCG> MS;
 typedef amgcl::relaxation::as_preconditioner<B, amgcl::relaxation::ilu0> RelP;
 
+#ifdef VQ_MPI_PARAMS
+typedef amgcl::mpi::amg<B, amgcl::mpi::coarsening::smoothed_aggregation<B>, amgcl::mpi::relaxation::spai0<B>,
+        amgcl::mpi::direct::skyline_lu<double>, amgcl::mpi::partition::merge<B> > MAMG;
+typedef amgcl::mpi::relaxation::as_preconditioner<amgcl::mpi::relaxation::spai0<B> > MREL;
+typedef amgcl::mpi::make_solver<MAMG, amgcl::mpi::solver::cg<B> > MMS;
+typedef amgcl::mpi::subdomain_deflation<AMG, CG, amgcl::mpi::direct::skyline_lu<double> > SDD;
+static std::function<double(ptrdiff_t, unsigned)> the_def_vec = [](ptrdiff_t, unsigned) { return 1.0; };
+// subdomain_deflation::params requires the address of a callable under "def_vec"
+struct SddRt {
+    static std::string rt(const ptree &in) { ptree q = in; q.put("def_vec", static_cast<void*>(&the_def_vec));
+        SDD::params prm(q); ptree out; prm.get(out, ""); return show_tree(out); }
+    static std::string dflt() { ptree q; q.put("def_vec", static_cast<void*>(&the_def_vec)); q.put("num_def_vec", 0);
+        SDD::params prm(q); ptree out; prm.get(out, ""); return show_tree(out); }
+};
+static void register_mpi() {
+    reg<Full, MAMG::params>("mpi/amg.hpp:amg::params");
+    reg<Full, amgcl::mpi::cpr<MAMG, MREL>::params>("mpi/cpr.hpp:cpr::params");
+    reg<Full, MMS::params>("mpi/make_solver.hpp:make_solver::params");
+    reg<Full, amgcl::mpi::schur_pressure_correction<MMS, MMS>::params>("mpi/schur_pressure_correction.hpp:schur_pressure_correction::params");
+    { Entry e; e.rt = SddRt::rt; e.dflt = SddRt::dflt; structs()["mpi/subdomain_deflation.hpp:subdomain_deflation::params"] = e; }
+    reg<Full, amgcl::mpi::coarsening::aggregation<B>::params>("mpi/coarsening/aggregation.hpp:aggregation::params");
+    reg<Full, amgcl::mpi::coarsening::smoothed_aggregation<B>::params>("mpi/coarsening/smoothed_aggregation.hpp:smoothed_aggregation::params");
+    reg<Full, amgcl::mpi::coarsening::pmis<B>::params>("mpi/coarsening/pmis.hpp:pmis::params");
+    reg<Full, amgcl::mpi::partition::merge<B>::params>("mpi/partition/merge.hpp:merge::params");
+}
+#endif
+
 static void register_all() {
+#ifdef VQ_MPI_PARAMS
+    register_mpi();
+#endif
     reg<Full, AMG::params>("amg.hpp:amg::params");
     reg<Full, MS::params>("make_solver.hpp:make_solver::params");
     RegC<VQ_NOGET_deflated, amgcl::deflated_solver<AMG, CG>::params>::go("deflated_solver.hpp:deflated_solver::params");
